@@ -12,6 +12,7 @@ import (
 	"os"
 
 	"github.com/alicebob/sqlittle"
+	"golang.org/x/sys/unix"
 )
 
 type req struct {
@@ -35,6 +36,7 @@ func main() {
 	}
 	var release chan struct{}
 	var done chan resp
+	var rawFile *os.File
 	for sc.Scan() {
 		var q req
 		if err := json.Unmarshal(sc.Bytes(), &q); err != nil {
@@ -102,6 +104,28 @@ func main() {
 			r := <-done
 			release, done = nil, nil
 			reply(r)
+		case "rawlock":
+			// a write lock on SQLite's shared range WITHOUT the pending byte
+			// (what a process using the lock bytes directly could do)
+			f, err := os.OpenFile(q.Path, os.O_RDWR, 0)
+			if err != nil {
+				reply(resp{Err: err.Error()})
+				continue
+			}
+			fl := unix.Flock_t{Type: unix.F_WRLCK, Whence: 0, Start: 0x40000000 + 2, Len: 510}
+			if err := unix.FcntlFlock(f.Fd(), unix.F_SETLK, &fl); err != nil {
+				f.Close()
+				reply(resp{Err: err.Error()})
+				continue
+			}
+			rawFile = f
+			reply(resp{Held: true})
+		case "rawunlock":
+			if rawFile != nil {
+				rawFile.Close()
+				rawFile = nil
+			}
+			reply(resp{})
 		default:
 			reply(resp{Err: "unknown command"})
 		}
